@@ -104,15 +104,13 @@ Proof.
       apply Z.ltb_lt in G as ->. rewrite X. reflexivity.
 Qed.
 
-(* ---- _workers_sort: bounded equality (partial) ----------------------------------
-   MISSING for the full statement `forall w, NoDup (map fst w) ->
-   FarmGen.workers_sort w = Some (Sched.workers_sort w)`: the invariant
-   "wg = map (fun k => (k, of_host w k)) keys" through the loop and the lemma
-   that the fold of ws_longest over ALL keys (emptied groups included) picks
-   the host pick_host finds over the hosts that still have workers.  Proved
-   here: every pool of at most 6 workers on at most 3 hosts (worker ids =
-   positions; the function only compares ids for equality), 1093 pools, by
-   evaluation inside Coq. *)
+(* ---- _workers_sort: bounded equality -------------------------------------------
+   The full statement `forall w, NoDup (map fst w) ->
+   FarmGen.workers_sort w = Some (Sched.workers_sort w)` is proved in
+   Proofs/FarmSortEq.v (loop invariant + scan lemma).  Kept here as an
+   independent cross-check by evaluation inside Coq: every pool of at most 6
+   workers on at most 3 hosts (worker ids = positions; the function only
+   compares ids for equality), 1093 pools. *)
 Fixpoint host_lists (n k : nat) : list (list nat) :=
   match n with
   | 0 => [[]]
